@@ -44,6 +44,7 @@ func main() {
 	caseLimit := flag.String("caselimit", "", "per-harness case count limits: VfH_a=5,VfH_b=3 (cases 0..n-1 are run)")
 	stubs := flag.String("stubstr", "", "comma separated functions (ssa full names) returning string that are replaced by an opaque placeholder: formatting is not the subject")
 	stubz := flag.String("stubzero", "", "comma separated functions (ssa full names) replaced by a stub returning zero values")
+	wasm := flag.String("wasm", "", "wasm modules for vfWasmLoad: name=path,name=path")
 	trace := flag.Bool("trace", false, "log target panics to stderr")
 	flag.Parse()
 
@@ -95,7 +96,7 @@ func main() {
 	o.Limits = map[string]int64{"max_paths": int64(lim.MaxPaths), "max_decisions_per_path": int64(lim.MaxDecisions),
 		"max_steps_per_path": lim.MaxSteps, "branch_timeout_ms": lim.BranchTimeout.Milliseconds(), "assert_timeout_ms": lim.AssertTimeout.Milliseconds()}
 	res, err := gosym.RunAll(prog, *pkg, hs, *onlyCase, gosym.Options{Jobs: *jobs, Solver: *solver, Lim: lim,
-		CaseLimit: parseLimits(*caseLimit), StubStr: splitList(*stubs), StubZero: splitList(*stubz), MaxSamples: *maxSamples, SMTLogDir: *smtlog, TaskTimeout: *taskTO, Trace: *trace})
+		CaseLimit: parseLimits(*caseLimit), StubStr: splitList(*stubs), StubZero: splitList(*stubz), WasmFiles: parseKV(*wasm), MaxSamples: *maxSamples, SMTLogDir: *smtlog, TaskTimeout: *taskTO, Trace: *trace})
 	if err != nil {
 		fail(err)
 	}
@@ -128,4 +129,14 @@ func splitList(s string) []string {
 		return nil
 	}
 	return strings.Split(s, ",")
+}
+
+func parseKV(s string) map[string]string {
+	m := map[string]string{}
+	for _, kv := range splitList(s) {
+		if i := strings.IndexByte(kv, '='); i > 0 {
+			m[kv[:i]] = kv[i+1:]
+		}
+	}
+	return m
 }
